@@ -540,7 +540,50 @@ def shipped_object(ctx, th, spec, temps, batch, where, acc, qdata=False):
 
 
 # ----------------------------------------------------------------------------- entry points
+def anchored_functions():
+    from pgradd.ThermoChem import ThermochemRawData, ThermochemIncomplete, ThermochemBase
+    return [('raw_data.__init__', ThermochemRawData.__init__), ('raw_data.get_CpoR', ThermochemRawData.get_CpoR),
+            ('raw_data.get_SoR', ThermochemRawData.get_SoR), ('raw_data.get_HoRT', ThermochemRawData.get_HoRT),
+            ('incomplete._setup_correlation', ThermochemIncomplete._setup_correlation),
+            ('incomplete.get_CpoR', ThermochemIncomplete.get_CpoR), ('incomplete.get_HoRT', ThermochemIncomplete.get_HoRT),
+            ('incomplete.get_SoR', ThermochemIncomplete.get_SoR), ('base.check_range', ThermochemBase.check_range),
+            ('base.get_GoRT', ThermochemBase.get_GoRT)]
+
+
+# statements the generators need not reach: the NumPy-array path of get_CpoR (the property is about scalar temperatures)
+# (+ in C05 only: `del self._correlation` on re-setup (C13), the no-Cp out-of-range warning lines and the `range is None`
+#  return of check_range, which the C06 generators reach)
+REACH_EXEMPT = {'raw_data.get_CpoR': 1, 'incomplete._setup_correlation': 1, 'incomplete.get_HoRT': 1,
+                'incomplete.get_SoR': 1, 'base.check_range': 1}
+FLOORS = {'tref_below': 8, 'tref_at_min': 8, 'tref_between': 8, 'tref_at_knot': 8, 'tref_at_max': 8, 'tref_above': 8,
+          'T_below': 20, 'T_at_min': 20, 'T_between': 20, 'T_at_knot': 20, 'T_at_max': 20, 'T_above': 20,
+          'T_outside_below': 20, 'T_outside_above': 20, 'mk_value': 20, 'mk_assertion': 5, 'impl_h_incomplete': 10,
+          'impl_s_incomplete': 10, 'impl_h_outside': 10, 'exact_mode': 500, 'shipped_groups': 60, 'size_01': 4, 'size_16': 4}
+
+
+def check_reach(ctx, reach, floors, exempt):
+    """generator rot is a machinery failure (DESIGN Appendix B)"""
+    low = {k: ctx.stats.get(k, 0) for k, v in floors.items() if ctx.stats.get(k, 0) < v}
+    rep = reach.report() if reach is not None else None
+    ctx.extra.setdefault('coverage', {})['impl_reach'] = rep if rep is not None else 'coverage.py unavailable'
+    ctx.extra['coverage']['reach_floors'] = floors
+    if ctx.searching:
+        return
+    if low:
+        raise common.MachineryError('generator reach below its floor: %r' % low)
+    if rep:
+        bad = {k: v['missed'] for k, v in rep.items() if len(v['missed']) > exempt.get(k, 0)}
+        if bad:
+            raise common.MachineryError('anchored statements never executed by the generators: %r' % bad)
+
+
 def run(ctx):
+    with L.Reach(anchored_functions()) as reach:
+        run_inner(ctx)
+    check_reach(ctx, reach, FLOORS, REACH_EXEMPT)
+
+
+def run_inner(ctx):
     acc = Acc()
     for fname, rec in common.load_corpus('C05'):
         ctx.count('corpus')
